@@ -750,7 +750,9 @@ def gen_op(rng, r, allow_default_mutation, max_insts):
             return ['encode', a]
         if c < 0.85:
             return ['mkbuf', a]
-        if c < 0.96 and r.bufs and n < max_insts:
+        if c < 0.95:
+            if not r.bufs or n >= max_insts:
+                continue
             live = [i for i, b in enumerate(r.bufs) if not (len(b) and all(x == 0xff for x in b))]
             if not live:
                 continue
@@ -785,7 +787,7 @@ def gen_history(rng, spec, world, length, allow_default_mutation):
     reset_globals()
     r = Runner(world)
     ops = []
-    max_insts = rng.choice([2, 3, 4, 4])
+    max_insts = rng.choice([2, 3, 4, 4, 5])
     for _ in range(length):
         op = gen_op(rng, r, allow_default_mutation, max_insts)
         r.apply(op)
